@@ -21,6 +21,7 @@ type uScenario struct {
 	initial []uRow // before the global transaction (touched rows + untouched row)
 	now     []uRow // after the branch's local commit
 	tag     string
+	fixedID bool // concrete xid / branch id (the typed entries vary the cells instead)
 }
 
 func uRowsOf(cells ...[]driver.Value) []uRow {
@@ -104,7 +105,10 @@ func uStart(sc uScenario) *uWorld {
 }
 
 func uStartWith(sc uScenario, validate bool) *uWorld {
-	xid, branchID := vrt.String("xid", 2), int64(1+vrt.Choice("branch", 2))
+	xid, branchID := "10.0.0.1:8091:77", int64(2)
+	if !sc.fixedID {
+		xid, branchID = vrt.String("xid", 2), int64(1+vrt.Choice("branch", 2))
+	}
 	w := uSetup(sc.s, &undo.BranchUndoLog{Xid: xid, BranchID: uint64(branchID), Logs: sc.logs}, xid, branchID)
 	// data validation is exercised for the single-row update only in the integer
 	// schemas (C09 covers it in depth), for every program in the typed ones
@@ -128,7 +132,20 @@ func VerifC01Typed() {
 	if vrt.Choice("table", 2) == 1 {
 		s, prefix = uTypedDecimal, "decimal-"
 	}
-	sc := uBuildScenarioFor(s, prefix)
+	sc := uScenario{s: s, fixedID: true}
+	untouched := uCellsConcrete(s, 50)
+	b, a := uCells(s, "r1.before", 10), uCells(s, "r1.after", 10)
+	switch vrt.Choice("program", 3) {
+	case 0:
+		sc.logs = []undo.SQLUndoLog{{SQLType: types.SQLTypeUpdate, TableName: s.table, BeforeImage: uImage(s, types.SQLTypeUpdate, [][]driver.Value{b}), AfterImage: uImage(s, types.SQLTypeUpdate, [][]driver.Value{a})}}
+		sc.initial, sc.now, sc.tag = uRowsOf(untouched, b), uRowsOf(untouched, a), prefix+"update1"
+	case 1:
+		sc.logs = []undo.SQLUndoLog{{SQLType: types.SQLTypeInsert, TableName: s.table, BeforeImage: uImage(s, types.SQLTypeInsert, nil), AfterImage: uImage(s, types.SQLTypeInsert, [][]driver.Value{a})}}
+		sc.initial, sc.now, sc.tag = uRowsOf(untouched), uRowsOf(untouched, a), prefix+"insert1"
+	default:
+		sc.logs = []undo.SQLUndoLog{{SQLType: types.SQLTypeDelete, TableName: s.table, BeforeImage: uImage(s, types.SQLTypeDelete, [][]driver.Value{b}), AfterImage: uImage(s, types.SQLTypeDelete, nil)}}
+		sc.initial, sc.now, sc.tag = uRowsOf(untouched, b), uRowsOf(untouched), prefix+"delete1"
+	}
 	c01Rollback(sc, uStartWith(sc, vrt.Bool("dataValidation")))
 }
 
